@@ -54,7 +54,7 @@ const ELEMENT_BYTES: usize = core::mem::size_of::<u128>();
 /// `u128`.
 #[derive(Copy, Clone, PartialEq, Eq, Default)]
 #[cfg_attr(feature = "serde", derive(Deserialize, Serialize))]
-#[cfg_attr(feature = "serde", serde(transparent))]
+#[cfg_attr(feature = "serde", serde(try_from = "u128", into = "u128"))]
 pub struct BaseElement(u128);
 
 impl BaseElement {
@@ -349,6 +349,12 @@ impl TryFrom<u128> for BaseElement {
         } else {
             Ok(Self::new(value))
         }
+    }
+}
+
+impl From<BaseElement> for u128 {
+    fn from(value: BaseElement) -> Self {
+        value.0
     }
 }
 
